@@ -1,29 +1,35 @@
 (* The multiplicative order of x modulo the CRC-24Q generator G is 2^23-1 = 8388607.
-   Established in the kernel by one exhaustive sweep over x^1 .. x^8388607 (vm_compute,
-   about half a minute, run twice: once by the tactic and once by Qed). *)
+   Established in the kernel by one exhaustive sweep over x^1 .. x^8388606 (vm_compute,
+   about 20 s, run twice: once by the tactic and once by Qed).
+
+   Only [sweep_full] computes; every other step is written so that no conversion
+   ever has to unfold [sweep 8388606] / [xpow 8388606] (no fold/now/easy on them). *)
 From Coq Require Import NArith Lia Bool.
 From PyRtcm Require Import Spec.CrcPoly.
 Open Scope N_scope.
 
 Definition x_order : N := 8388607.
 
-Lemma sweep_full :
-  let r := sweep 8388606 in snd r = true /\ xstep (fst r) = 1.
-Proof. vm_compute. split; reflexivity. Qed.
+(* 0xC3267D = x^(-1) mod G = (G xor 1) / x ; no power x^1 .. x^8388606 equals 1 *)
+Lemma sweep_full : sweep 8388606 = (0xC3267D, true).
+Proof. vm_compute. reflexivity. Qed.
+
+Lemma xpow_succ n : xpow (N.succ n) = xstep (xpow n).
+Proof. unfold xpow. apply N.iter_succ. Qed.
 
 (* no smaller positive power of x is 1 modulo G *)
 Theorem x_order_min d : 0 < d < x_order -> xpow d <> 1.
 Proof.
-  intro Hd. destruct sweep_full as [H _].
-  apply (sweep_sound 8388606 H). unfold x_order in Hd. lia.
+  intro Hd. apply (sweep_sound 8388606).
+  - rewrite sweep_full. reflexivity.
+  - unfold x_order in Hd. lia.
 Qed.
 
 (* x^8388607 = 1 modulo G *)
 Theorem x_order_one : xpow x_order = 1.
 Proof.
-  destruct sweep_full as [_ H]. rewrite sweep_fst in H.
-  unfold x_order. change 8388607 with (N.succ 8388606).
-  unfold xpow in *. now rewrite N.iter_succ.
+  replace x_order with (N.succ 8388606) by reflexivity.
+  rewrite xpow_succ, <- sweep_fst, sweep_full. reflexivity.
 Qed.
 
 Print Assumptions x_order_min.
